@@ -288,6 +288,26 @@ CHECKS['C14'] = ('DESIGN.md#C14',
     'Trusted: scipy.ndimage.convolve. Known finding F16 (non-positive peaks '
     'near the edge) is set aside per case, counted and reported as known.')
 
+CHECKS['C12'] = ('DESIGN.md#C12',
+    'Hypothesis-generated noise-free scenes rendered from the fitting model '
+    '(five model kinds, blends, edge sources, shuffled rows, groupers / '
+    'interleaved group_id, masks, errors with unused invalid values, local '
+    'background, bounds, fixed parameters) vs. the rendered truth, a '
+    'union-find grouping oracle and the documented npixfit/flag semantics',
+    'Generated-input search: fitted x, y, flux equal the rendered values '
+    '(1e-4) and the residual is ~0 for converged, well-posed sources; '
+    'fluxes scale with the image; rows in input order with ids 1..N; '
+    'group_id/group_size equal single-linkage clusters at min_separation or '
+    'the supplied group_id; npixfit equals the unmasked in-image pixels of '
+    'the fit window, flags 1/2/4/32 follow their documented meaning; fixed '
+    'parameters keep their initial value; init_params untouched; '
+    'IterativePSFPhotometry(maxiters=1) equals PSFPhotometry. Held on N '
+    'cases; not a proof.',
+    'Exact recovery is asserted only inside the optimiser\'s basin: '
+    'converged (flag 8 clear), neighbours within reach in the same group, '
+    'blend members >= 1 FWHM apart (true and initial), windows >= 15 px, '
+    'truth inside the bounds; everything else is counted as inconclusive.')
+
 NOT_APPLICABLE = []
 
 
